@@ -166,7 +166,7 @@ package route
 // `deliveries` counts what left this function towards a sink: upstream queue, peer
 // queue, collector. (A span kept by stress relief is forwarded upstream inside
 // ProcessSpanImmediately.)
-//@ contract route.(*Router).processEvent props C19,C16,C23
+//@ contract route.(*Router).processEvent props C19,C16,C23,C17
 //@   assert owns
 //@   requires r != nil && ev != nil && owns(ev)
 //@   let e0 = ev
